@@ -317,7 +317,75 @@ def gen_mcs(status):
     return write_if_changed(os.path.join(GEN_DIR, 'Mcs.lean'), body)
 
 
-GENERATORS = [gen_pess, gen_opt, gen_mcs]
+THREAD_SITES = [
+    # (file, class-qualified function, expected ops, slot names, defaults)
+    ('src/thread/component/epoch.cpp', 'Epoch::GetCurrentEpoch', ['load'], ['epoch.getCurrent'], ['acq']),
+    ('src/thread/component/epoch.cpp', 'Epoch::GetProtectedEpoch', ['load'], ['epoch.getProtected'], ['rlx']),
+    ('src/thread/component/epoch.cpp', 'Epoch::EnterEpoch', ['store'], ['epoch.enter'], ['rlx']),
+    ('src/thread/component/epoch.cpp', 'Epoch::LeaveEpoch', ['store'], ['epoch.leave'], ['rlx']),
+    ('src/thread/epoch_manager.cpp', 'EpochManager::GetCurrentEpoch', ['load'], ['mgr.getCurrent'], ['rlx']),
+    ('src/thread/epoch_manager.cpp', 'EpochManager::GetMinEpoch', ['load'], ['mgr.getMin'], ['rlx']),
+    ('src/thread/epoch_manager.cpp', 'EpochManager::ForwardGlobalEpoch', ['load', 'store', 'store'],
+     ['fwd.load', 'fwd.storeGlobal', 'fwd.storeMin'], ['rlx', 'rel', 'rlx']),
+    ('src/thread/id_manager.cpp', 'IDManager::GetHeartBeater', ['load', 'xchg'], ['id.load', 'id.xchg'], ['rlx', 'rlx']),
+    ('src/thread/id_manager.cpp', 'IDManager::HeartBeater::~HeartBeater', ['store'], ['id.release'], ['rlx']),
+]
+
+
+def gen_thread(status):
+    names = ['kCapacity', 'kInitialEpoch', 'kMinEpoch']
+    vals = compile_consts('thread', [f'{REPO}/include/dbgroup/thread/epoch_manager.hpp'], names,
+                          prefix='::dbgroup::thread::EpochManager::')
+    if isinstance(vals, str):
+        status['errors'].append('thread constants: ' + vals)
+        vals = {'kCapacity': 256, 'kInitialEpoch': 256, 'kMinEpoch': 0}
+    status['constants']['thread'] = vals
+    d = {}
+    for path, q, ops, slots, defaults in THREAD_SITES:
+        src = cxxscan.strip_comments(read(os.path.join(REPO, path)))
+        found = cxxscan.find_function(src, q)
+        ok = False
+        sites = []
+        if found:
+            sites = cxxscan.atomic_sites(found[1])
+            ok = [s_['op'] for s_ in sites] == ops
+        status['functions'][q] = {'recognised': ok, 'expected_ops': ops,
+                                  'sites': [{'op': s_['op'], 'orders': s_['orders'], 'recv': s_['recv']} for s_ in sites]}
+        if ok:
+            flat = []
+            for s_ in sites:
+                flat.extend(s_['orders'])
+            for name, o in zip(slots, flat):
+                d[name] = o
+        else:
+            status['unrecognised'].append(q)
+            for name, o in zip(slots, defaults):
+                d[name] = o
+    status['orders']['thread'] = d
+    # exit path: is the heartbeat dropped (id_.reset() / id_ = ...) before the reservation flag is cleared?
+    src = cxxscan.strip_comments(read(os.path.join(REPO, 'src/thread/id_manager.cpp')))
+    found = cxxscan.find_function(src, 'IDManager::HeartBeater::~HeartBeater')
+    expire_first = False
+    if found:
+        body = found[1]
+        m_reset = re.search(r'\bid_\s*(\.\s*reset\s*\(|=(?!=))', body)
+        m_store = re.search(r'\.\s*store\s*\(', body)
+        if m_reset and m_store and m_reset.start() < m_store.start():
+            expire_first = True
+    status['facts']['heartbeat_expires_before_release'] = expire_first
+    body = HEADER + 'import CppUtil.Model.Epoch\nnamespace CppUtil.Gen\nopen CppUtil\n\n'
+    body += ('def epochConsts : Epoch.Consts := { kCapacity := %d, kInitialEpoch := %d, kMinEpoch := %d }\n\n'
+             % (vals['kCapacity'], vals['kInitialEpoch'], vals['kMinEpoch']))
+    body += 'def threadOrders : String → MO\n'
+    for k_ in sorted(d):
+        body += f'  | "{k_}" => {MO_LEAN[d[k_]]}\n'
+    body += '  | _ => .sc\n\n'
+    body += '/-- `~HeartBeater` drops the heartbeat before it clears the reservation flag -/\n'
+    body += f'def heartbeatExpiresFirst : Bool := {"true" if expire_first else "false"}\n\nend CppUtil.Gen\n'
+    return write_if_changed(os.path.join(GEN_DIR, 'Thread.lean'), body)
+
+
+GENERATORS = [gen_pess, gen_opt, gen_mcs, gen_thread]
 
 
 def main():
